@@ -336,6 +336,13 @@ let handle (line : string) : string =
     String.concat " ;; " (List.map (fun (((o, tr), dt), tie) ->
         Printf.sprintf "%s dt=%s%s trace=%s" (string_of_outcome o) (string_of_n dt) (if tie then " TIE" else "")
           (String.concat "," (List.map string_of_event tr))) rs)
+  | "reqsgpsd" :: sk :: retries :: delay :: idle :: script :: reqs ->
+    let w = { M.wsrv = M.new_srv (nat_of_int (int_of_string retries)) (n_of_string delay);
+              wenv = script_of_string idle script; wnow = M.N0; wtrace = []; wtie = false } in
+    let rs = M.run_requests_gpsd (nlist_of_string sk) (nat_of_int 200000) (List.map request_of_string reqs) w in
+    String.concat " ;; " (List.map (fun (((o, tr), dt), tie) ->
+        Printf.sprintf "%s dt=%s%s trace=%s" (string_of_outcome o) (string_of_n dt) (if tie then " TIE" else "")
+          (String.concat "," (List.map string_of_event tr))) rs)
   | "reqsline" :: b0 :: brx :: sk :: retries :: delay :: idle :: script :: reqs ->
     let line = { M.l_port = { M.p_open = true; p_baud = z_of_string b0; p_baud_log = [] }; l_rxbaud = z_of_string brx;
                  l_script = script_of_string idle script; l_out = []; l_got = [] } in
